@@ -38,6 +38,10 @@ def mkplan(rnd, k, ncmd):
             elif y < 0.40: c.update(whose=[u for u in USERS if u != peer][0])                               # a user tries to look into another one's
             if mode == 'brief' and not c['ids'] and c['whose'] == c['peer'] and rnd.random() < 0.4: c['bare'] = True   # plain `echsq`
             cmds.append(c)
+    if rnd.random() < 0.6:
+        # meanwhile other peers open 33..45 connections and keep them for a while (the daemon's table has 64 slots in two halves)
+        a = rnd.randint(1, len(cmds) - 6); b = a + rnd.randint(3, 5)
+        cmds.insert(b, {'op': 'crowd', 'peer': 'root', 'n': 0}); cmds.insert(a, {'op': 'crowd', 'peer': 'root', 'n': rnd.choice([33, 34, 40, 45])})
     return {'dirs': DIRS, 'cmds': cmds}
 
 def pretty(dt):
@@ -64,6 +68,7 @@ def parse_ical(txt, with_owner):
 def project(c, s):
     """one plan command + what the client printed -> one trace line"""
     out = s['out']
+    if c['op'] == 'crowd': return {'e': 'Crowd', 'peer': 'root', 'rc': s['rc'], 'n': c['n'], 'open': int(out or 0)}
     if c['op'] in ('add', 'dry'):
         evs = [{'uid': e['uid'], 'cmd': e['cmd'], 'cwd': s['cwd'], 'umask': c['umask'], 'start': e['start']} for f in c['files'] for e in f]
         if c['op'] == 'add': return {'e': 'Add', 'peer': c['peer'], 'rc': s['rc'], 'evs': evs, 'replies': out.split()}
